@@ -43,7 +43,32 @@ def _guarded_increment(P, f, st, fp):
     return False
 
 
-def wire_append_fns(P):
+def _external_owners(P, f):
+    """the externally visible function(s) a static helper works for (the helper itself if it is not static or has no callers): findings are
+    keyed by them, so they keep their identity when the helper is inlined into, or extracted from, its callers"""
+    if not f.internal:
+        return [f.name]
+    out, seen, work = [], {f.name}, [f.name]
+    while work:
+        n = work.pop()
+        for cf, ci in P.callers().get(n, []):
+            if cf.name in seen:
+                continue
+            seen.add(cf.name)
+            if cf.internal:
+                work.append(cf.name)
+            else:
+                out.append(cf.name)
+    return sorted(out) or [f.name]
+
+
+def wire_append_fns(P, w=None):
+    if w is not None:
+        from . import c01 as _c01x
+        try:
+            return {f_.name for f_, i_ in _c01x.send_roles(w)["append"]}
+        except AnalysisBroken:
+            return set()
     wire = set()
     for f in P.repo_functions():
         for i in f.calls():
@@ -87,14 +112,11 @@ def run(chk, w):
     chk.floor("seq_allocators", len(allocs), 1)
     alloc_names = {f.name for f in allocs}
 
-    # hand-off targets by role: the function that copies into the static send buffer, and pushes onto a per-node deferred queue
-    wire = set()
-    for f in P.repo_functions():
-        for i in f.calls():
-            if i.callee and i.callee.startswith("llvm.memcpy"):
-                for t in flow.origins(f, i.args[0]):
-                    if t[0] == "gaddr" and P.globals.get(t[1], {}).get("internal") and P.globals[t[1]]["type"].startswith("[") and P.globals[t[1]].get("size", 0) >= 128 and not P.globals[t[1]].get("const"):
-                        wire.add(f.name)
+    # hand-off targets by role (taken from the sender's role finder: a memcpy or a byte-wise copy loop into the batch buffer)
+    try:
+        wire = {f_.name for f_, i_ in _c01.send_roles(w)["append"]}
+    except AnalysisBroken:
+        wire = set()
     if not wire:
         raise AnalysisBroken("the function that appends to the send buffer was not found")
     chk.extra["allocators"] = sorted(alloc_names)
@@ -163,7 +185,8 @@ def run(chk, w):
                         lh = c.inst_states.get(h.id, set())
                         ok = all(any(locks.ls_get(y, l) for (l, m, k) in x if l in ("bidib_node_state_table_mutex", "bidib_send_buffer_mutex")) for x in la for y in lh) and la and lh
                         if not ok:
-                            chk.violation("C05-SPAN", f.name, "admission->append", a.loc(),
+                          for own_ in _external_owners(P, f):
+                            chk.violation("C05-SPAN", own_, "admission->append", a.loc(),
                                           "admission (%s, line %d) and append to the wire buffer (%s, line %d) are separate critical sections: admitted messages can be appended in a different order" % (a.callee, a.line, h.callee, h.line))
                         else:
                             chk.ok("C05-SPAN", 1)
@@ -276,6 +299,15 @@ def run(chk, w):
                 zero_only = all(rules.const_of(fn, s["val"]) == 0 for s in others)
                 if flagged and slot is not None and zero_only:
                     ok = True
+                # `const uint8_t seqnum = enabled ? allocate() : 0;` - the call feeds a phi whose other inputs are the constant 0
+                def _is_call(v, i=i):
+                    x = fn.resolve(rules.strip_casts(fn, v)) if v.get("k") == "inst" else None
+                    return x is not None and x.id == i.id
+                for ph in fn.all_insts():
+                    if ph.op == "phi" and any(_is_call(v) for b_, v in ph["incoming"]):
+                        rest = [v for b_, v in ph["incoming"] if not _is_call(v)]
+                        if flagged and rest and all(rules.const_of(fn, v) == 0 for v in rest):
+                            ok = True
         if ok:
             chk.ok("C05-ZERO", 1, {"constructor": name})
         else:
